@@ -166,6 +166,10 @@ func (s *StrategyChoiceModule) set(interest *spec.Interest, pitToken []byte, inF
 			s.manager.sendResponse(response, interest, pitToken, inFace)
 			return
 		}
+		// Store the version the way the strategy instances are named: the same number
+		// may arrive in a longer encoding, which is another name as far as tables go
+		params.Strategy.Name = append(params.Strategy.Name[:len(s.strategyPrefix)+1:len(s.strategyPrefix)+1],
+			enc.NewVersionComponent(uint64(strategyVersion)))
 	} else {
 		// Add missing version information to strategy name
 		params.Strategy.Name = append(params.Strategy.Name, enc.NewVersionComponent(strategyVersion))
